@@ -116,14 +116,21 @@ theorem HT.cfg {p : Par} {P : TS} (e : Ev) (he : e = .wr vVip ∨ e = .rd vVip) 
   · exact (HT.unlock (rep_mtx_cfg p) (fun _ _ _ _ _ h => Or.inr h)).post
       (fun _ _ _ _ _ h => ⟨Or.inl h.1, h.2⟩)
 
-theorem typedS : HT (mkSpec s.par) s.kids tS EmptyS s.progS EmptyS := by
+/-- the status thread's critical section: it also updates its private table of last messages -/
+theorem segS_cfg {p : Par} :
+    HT (mkSpec p) kids t (OneS 15 0 0) [.lock oCfg, .wr vVip, .wr vLastm, .unlock oCfg] (OneS 15 0 0) := by
+  refine HT.cons (HT.lock (rep_mtx_cfg p)) (HT.cons (HT.wrv1 (c := 13) 0 (by decide) rfl (by tokarith))
+    (HT.cons (HT.wrv1 (c := 15) 0 (by decide) rfl (by tokarith)) ?_))
+  exact (HT.unlock (rep_mtx_cfg p) (by toksub)).post (by toksub)
+
+/-- the status thread owns its table of last messages (`tk 15 0 0`) from the beginning -/
+theorem typedS : HT (mkSpec s.par) s.kids tS (OneS 15 0 0) s.progS (OneS 15 0 0) := by
   unfold progS
-  refine HT.seq (Q := EmptyS) (HT.seq (Q := EmptyS) ?_ ?_) ?_
-  · exact (HT.cfg _ (Or.inl rfl)).post (by toksub)
-  · apply HT.range_const; intro m _
-    refine HT.cons (HT.recv (rep_chan_cm _ m)) ?_
-    exact (HT.rdv (c := 10) m 0 (by decide) (by decide) (Or.inl rfl) (by tokarith)).post (by toksub)
-  · exact (HT.cfg _ (Or.inl rfl)).post (by toksub)
+  refine HT.seq (Q := OneS 15 0 0) (HT.seq (Q := OneS 15 0 0) segS_cfg ?_) segS_cfg
+  apply HT.range_const; intro m _
+  refine HT.cons (HT.recv (rep_chan_cm _ m))
+    (HT.cons (HT.rdv (c := 10) m 0 (by decide) (by decide) (Or.inl rfl) (by tokarith)) ?_)
+  exact (HT.wrv1 (c := 15) 0 (by decide) rfl (by tokarith)).post (by toksub)
 
 theorem typedAR (j : Nat) : HT (mkSpec s.par) s.kids t EmptyS (progAR j) EmptyS := by
   unfold progAR
